@@ -118,6 +118,9 @@ fn no_trace(op: &OpRec, probes: (&ProbeRec, &ProbeRec)) -> Option<String> {
     if probes.0.quiescent != probes.1.quiescent || probes.0.can_publish != probes.1.can_publish {
         return Some("quiescence / can_publish changed".into());
     }
+    if b.next_packet_id != a.next_packet_id {
+        return Some(format!("a packet identifier was consumed ({} -> {}): the next request carries a different identifier on the wire", b.next_packet_id, a.next_packet_id));
+    }
     None
 }
 
@@ -129,19 +132,19 @@ impl Check for C19 {
         "exploration"
     }
     fn rule(&self) -> String {
-        "EXHAUSTIVE enumeration of 27 property kinds x {publish, will, subscribe, unsubscribe, disconnect} x value variants (legal, boundary, illegal) x session states {idle, in-flight work with withheld acks, dead handle} against a reference table written from the MQTT 5.0 text (Accept / Reject / DontCare): Reject => documented error and no trace (no byte of the request written, snapshot, handle statuses, quiescence and can_publish unchanged); Accept => the request succeeds with ample buffers and the property is decoded from the wire with the same value; plus empty SUBSCRIBE/UNSUBSCRIBE lists, and Maximum QoS {absent,0,1} x requested {0,1,2} x auto-downgrade {on,off}: no PUBLISH above the maximum on the wire, returned handle kind (none / completed by PUBACK / completed by PUBCOMP) matches the QoS sent. Every cell is a distinct non-trivial case.".into()
+        "EXHAUSTIVE enumeration of 27 property kinds x {publish, will, subscribe, unsubscribe, disconnect} x value variants (legal, boundary, illegal) x session states {idle, in-flight work with withheld acks, dead handle, send window used up, all eight in-flight slots used} against a reference table written from the MQTT 5.0 text (Accept / Reject / DontCare): Reject => documented error (InvalidRequest also when the request could not have been admitted anyway) and no trace (no byte of the request written, snapshot incl. the identifier counter, handle statuses, quiescence and can_publish unchanged); Accept => the request succeeds with ample buffers and the property is decoded from the wire with the same value; plus empty SUBSCRIBE/UNSUBSCRIBE lists, and Maximum QoS {absent,0,1} x requested {0,1,2} x auto-downgrade {on,off}: no PUBLISH above the maximum on the wire, returned handle kind (none / completed by PUBACK / completed by PUBCOMP) matches the QoS sent. Every cell is a distinct non-trivial case.".into()
     }
     fn assumptions(&self) -> Vec<String> {
         vec!["the reference table (requests.rs::verdict, DESIGN.md appendix A) is a correct reading of MQTT 5.0".into(), "string content rules (wildcards in a response topic, U+0000) are invalid user input and not generated".into()]
     }
     fn workloads(&self) -> Vec<Workload> {
-        vec![Workload { name: "property-cells", quick: 27 * 5 * 3, thorough: 27 * 5 * 3 }, Workload { name: "qos-cap-cells", quick: 3 * 3 * 2 * 3, thorough: 3 * 3 * 2 * 3 }, Workload { name: "empty-lists", quick: 6, thorough: 6 }]
+        vec![Workload { name: "property-cells", quick: 27 * 5 * 5, thorough: 27 * 5 * 5 }, Workload { name: "qos-cap-cells", quick: 3 * 3 * 2 * 3, thorough: 3 * 3 * 2 * 3 }, Workload { name: "empty-lists", quick: 6, thorough: 6 }]
     }
     fn min_nontrivial(&self, _tier: Tier) -> usize {
         400
     }
     fn required_counters(&self) -> Vec<&'static str> {
-        vec!["cells_accept", "cells_reject", "no_trace_comparisons", "downgrade_cells", "dead_handle_cells"]
+        vec!["cells_accept", "cells_reject", "no_trace_comparisons", "downgrade_cells", "dead_handle_cells", "blocked_state_cells"]
     }
     fn exhaustive(&self) -> bool {
         true
@@ -174,20 +177,37 @@ impl Check for C19 {
         };
         match workload {
             0 => {
-                let state = (index % 3) as u8; // 0 idle, 1 in-flight, 2 dead handle
-                let ctx = CTXS[((index / 3) % 5) as usize];
-                let id = ALL_PROP_IDS[(index / 15) as usize];
+                // 0 idle, 1 in-flight, 2 dead handle, 3 send window used up (Receive Maximum 1, one
+                // publish unacknowledged), 4 all eight in-flight slots used
+                let state = (index % 5) as u8;
+                let ctx = CTXS[((index / 5) % 5) as usize];
+                let id = ALL_PROP_IDS[(index / 25) as usize];
                 for p in variants(id, &mut rng) {
                     let v = verdict(&p, ctx, &ENV);
                     let label = format!("{}/{:?}/{:?}/state{}", Prop::name(id), p, ctx, state);
                     out.key(format!("cell/{}/{:?}/{:?}/state{}", Prop::name(id), ctx, v, state));
+                    if state >= 3 {
+                        out.count("blocked_state_cells", 1);
+                    }
                     let mut cfg = CaseCfg { rx: 256, tx: 2048, keepalive: 0, session_expiry: ENV.connect_expiry, ..CaseCfg::default() };
                     if ctx == Ctx::Will {
                         cfg.will = Some(WillSpec { topic: "w".into(), payload: vec![1], qos: 1, retain: false, props: vec![p.clone()] });
                     }
-                    let mut steps = vec![connect_with(SpMode::Force(false), if state == 1 { AckMode::Hold } else { AckMode::Immediate }, vec![Prop::TopicAliasMaximum(ENV.topic_alias_max)])];
+                    let mut cprops = vec![Prop::TopicAliasMaximum(ENV.topic_alias_max)];
+                    if state == 3 {
+                        cprops.push(Prop::ReceiveMaximum(1));
+                    }
+                    let mut steps = vec![connect_with(SpMode::Force(false), if matches!(state, 1 | 3 | 4) { AckMode::Hold } else { AckMode::Immediate }, cprops)];
                     if state == 1 {
                         inflight_ctx(&mut steps);
+                    }
+                    if state == 3 {
+                        steps.push(pubq(1, "bg/1", 1, 3));
+                    }
+                    if state == 4 {
+                        for k in 0..8 {
+                            steps.push(pubq(1 + (k % 2) as u8, "bg/n", 10 + k, 1));
+                        }
                     }
                     if state == 2 {
                         steps.push(Step::Broker(BrokerAct::Send(SPacket::Disconnect { reason: Some(0x8B), props: None })));
@@ -256,6 +276,9 @@ impl Check for C19 {
                                         }
                                     }
                                 }
+                            }
+                            V::Accept if state >= 3 && ctx != Ctx::Disconnect => {
+                                // a legal request may well be refused for lack of window / slots here
                             }
                             V::Accept => {
                                 if !matches!(op.outcome, Outcome::Ok(_)) {
